@@ -74,7 +74,7 @@ func (e *ExtensionObject) decodeDepth(b []byte, depth int) (int, error) {
 	if length == 0 {
 		// An empty body is the complete encoding of a registered
 		// type without fields. Decode it as such instead of dropping the value.
-		if e.EncodingMask == ExtensionObjectBinary {
+		if e.EncodingMask != ExtensionObjectXML {
 			if v := eotypes.New(e.TypeID.NodeID); v != nil && isFieldlessStruct(v) {
 				e.Value = v
 			}
@@ -122,11 +122,14 @@ func (e *ExtensionObject) Encode() ([]byte, error) {
 		return buf.Bytes(), buf.Error()
 	}
 
-	body := NewBuffer(nil)
-	// Value is nil when the body was empty or of a type unknown to the registry.
-	if e.Value != nil {
-		body.WriteStruct(e.Value)
+	// Value is nil when the body was null or of a type unknown to the registry.
+	if e.Value == nil {
+		buf.WriteUint32(null)
+		return buf.Bytes(), buf.Error()
 	}
+
+	body := NewBuffer(nil)
+	body.WriteStruct(e.Value)
 	if body.Error() != nil {
 		return nil, body.Error()
 	}
